@@ -47,7 +47,11 @@ def main(argv):
             traceback.print_exc()
             chk.error("analysis aborted by %s: %s" % (type(e).__name__, str(e)[:120]))
             explanation = None
-        lints.run_for(chk, prog, pid, extra_files=getattr(mod, "LINT_EXTRA_FILES", ()))
+        extra = list(getattr(mod, "LINT_EXTRA_FILES", ()))
+        if tier == "thorough":
+            # thorough: the shape lints also cover every module the property's obligations touched (callees outside the anchor files)
+            extra += [m_ for m_ in sorted(chk.analysed.get("modules", ())) if m_.endswith(".py")]
+        lints.run_for(chk, prog, pid, extra_files=extra)
         lints.gate_report(chk, pid)
         explanation = (explanation or mod.__doc__ or pid) + "\n\nShared lints run on this property's anchor files (sa/lints.py):\n" + lints.__doc__
         return chk.finish(explanation)
